@@ -383,6 +383,7 @@ pub fn run(opts: &Opts) -> i32 {
             allow_local_failures: true,
             manual_release: rng.chance(1, 3),
             allow_not_ready: rng.chance(1, 4),
+            q2_explicit_ids: false,
             partial_progress_pct: *rng.pick(&[0u64, 30]),
             enumerate: false,
             script: vec![],
